@@ -27,7 +27,11 @@ SoupStmt == {"say ", "foo ", "is ", "5 ", NLc, "if ", "else ", "while ", "takes 
 
 (* right-hand sides of `is` / `like`: where a poetic literal starts and where it does not (a literal word or a negative number first *)
 (* makes the right-hand side an ordinary expression, which must then be one to the end of the line)                                *)
-SoupPoetic == {"foo is ", "true ", "nothing ", "-", "5 ", "love ", "so ", ". ", "'s ", NLc, "rock foo like ", "plus ", "foo says "}
+SoupPoetic == {"foo is ", "true ", "nothing ", "-", "- ", "5 ", ".5 ", "love ", "so ", ". ", "'s ", NLc, "rock foo like ", "plus ", "foo says "}
+
+(* an `else` in every place: after an if that had none, after a loop, after a function, twice, first (the top-level loop must  *)
+(* consume it or reject it)                                                                                                      *)
+SoupElse == {"if foo" \o NLc, "say foo" \o NLc, NLc, "else" \o NLc, "while foo" \o NLc, "foo takes bar" \o NLc, "give back 1" \o NLc, "else "}
 
 (* whole lines and line pieces: most sequences are several statements with block structure, many of them valid *)
 SoupLines == {"say foo" \o NLc, "put 5 into foo" \o NLc, "if foo" \o NLc, "else" \o NLc, NLc, "while foo" \o NLc, "foo takes bar" \o NLc,
